@@ -125,7 +125,13 @@ WireFtpListing == {
   <<"ls_symlink_escape", "none", "none">>, <<"ls_huge_line", "none", "none">>,
   Fx("msdos_short", <<"ls_msdos_short", "f_listing_parse", "IndexError">>, <<"ls_msdos_short", "f_listing_parse", "ListingError">>), Fx("msdos_short", <<"ls_msdos_3fields", "f_listing_parse", "IndexError">>, <<"ls_msdos_3fields", "f_listing_parse", "ListingError">>),
   <<"ls_unix_bad_date", "f_listing_parse", "ValueError">>, <<"ls_unix_no_size", "f_listing_parse", "ValueError">>,
-  <<"ls_unix_no_date", "f_listing_parse", "ListingError">>, <<"ls_msdos_bad_date", "f_listing_parse", "ValueError">> }
+  <<"ls_unix_no_date", "f_listing_parse", "ListingError">>, <<"ls_msdos_bad_date", "f_listing_parse", "ValueError">>,
+  \* machine listings (MLSD): parse_machine_listing(strict=False) keeps a row whose facts cannot be converted
+  <<"ml_ok", "none", "none">>, <<"ml_fraction_short", "none", "none">>, <<"ml_fraction_7", "none", "none">>,
+  <<"ml_fraction_long", "none", "none">>, <<"ml_fraction_huge", "none", "none">>, <<"ml_bad_date", "none", "none">>,
+  <<"ml_date_nondigit", "none", "none">>, <<"ml_size_garbage", "none", "none">>, <<"ml_size_huge", "none", "none">>,
+  <<"ml_no_name", "none", "none">>, <<"ml_binary", "none", "none">>, <<"ml_names_weird", "none", "none">>,
+  <<"ml_dup_facts", "none", "none">>, <<"ml_empty", "none", "none">> }
 
 (* the hostile URL is a start URL whose parent directory is listed first (finding 21) *)
 WireFtpParent == {
